@@ -17,7 +17,7 @@ func init() {
 			"C16.2 the token assertion is licensed by the DataFilter installed at the same traversal.Start (true only for strings); " +
 			"C16.3 order and completion: the completion goroutine receives from Stopped() before announceClosest(), announces only when announce options were given, and sets peerAnnounced and closes Peers on every path; Peers is closed nowhere else; the goroutine is started on every non-error path; announceClosest waits for every announce it started (Add before go, never inside the started goroutine) and reads Closest() only after Stopped(); " +
 			"C16.4 delivery is not lossy and cannot strand the announce: every send on Announce.Peers sits in a blocking select whose only other case is the announce's own close event (a SetOnce every setter of which also stops the traversal) - not the query context (StopTraversing would drop received responses) and not Stopped() (which waits for the delivering query itself); the delivered value carries the responder {addr, r.ID}, r.Values and *r of the one reply; " +
-			"C16.5 argument correspondence: Server.announcePeer fills MsgArgs.ImpliedPort/InfoHash/Port/Token from the like-named parameters and queries the node it was given; Announce.announcePeer passes its own info-hash and the configured Port / ImpliedPort.",
+			"C16.5 argument correspondence: Server.announcePeer fills MsgArgs.ImpliedPort/InfoHash/Port/Token from the like-named parameters and queries the node it was given; Announce.announcePeer passes its own info-hash and the configured Port / ImpliedPort. C16.11 the get_peers callback runs synchronously in the goroutine holding the in-flight slot, so Stopped() implies no delivery is pending (shared with C04.1); C16.12 every slot release is broadcast so Stop()'s waiter wakes (shared with C03.2).",
 		NotDecided: "which nodes end up in the closest set (C02), exactly-once delivery counts, behaviour of the remote nodes.",
 		Assume:     []string{"k-nearest-nodes Range yields each stored element with its own key and data (C02.4 checks Push stores them together)"},
 		Rules: []*Rule{
@@ -29,6 +29,8 @@ func init() {
 			{ID: "C16.6", Doc: "the lookup under the announce can stall and stop: every in-flight slot taken is given back (shared with C03.4)", Floor: 5, Run: c03r4},
 			{ID: "C16.8", Doc: "a reply cannot inherit another node's id or token from an earlier datagram: fresh decode target per datagram (shared with C07.7)", Floor: 1, Run: c07r7},
 			{ID: "C16.10", Doc: "address and token stay together in the closest set: Push stores the element it was given, key and data (shared with C02.4)", Floor: 6, Run: c02r4},
+			{ID: "C16.11", Doc: "Stopped() means every get_peers callback has returned (so closing Peers after it cannot race a delivery): the callback runs synchronously in the goroutine that holds the in-flight slot (shared with C04.1)", Floor: 4, Run: c04r1},
+			{ID: "C16.12", Doc: "the announce always finishes: every release of an in-flight slot is broadcast, so the waiter in Stop() wakes and Stopped() fires (shared with C03.2)", Floor: 5, Run: c03r2},
 			{ID: "C16.9", Doc: "Close() sets the close event unconditionally and without waiting (the deliveries it releases are what the traversal's Stopped() waits for)", Floor: 1, Run: c16CloseNeverWaits},
 			{ID: "C16.7", Doc: "replies are matched to queries by full address and transaction id, so the token kept for a node is that node's (shared with C07.1)", Floor: 6, Run: c07r1},
 		},
